@@ -647,7 +647,8 @@ coap_ws_read(coap_session_t *session, uint8_t *data, size_t datalen) {
         !(session->ws->rd_header[1] & WS_B1_MASK_BIT)) {
       /* Client has failed to mask the data */
       session->ws->close_reason = 1002;
-      coap_ws_close(session);
+      if (!session->ws->sent_close)
+        coap_ws_close(session);
       return 0;
     }
 
@@ -671,17 +672,17 @@ coap_ws_read(coap_session_t *session, uint8_t *data, size_t datalen) {
     if (op_code != WS_OP_BINARY && op_code != WS_OP_CLOSE) {
       /* Remote has failed to use correct opcode */
       session->ws->close_reason = 1003;
-      coap_ws_close(session);
+      if (!session->ws->sent_close)
+        coap_ws_close(session);
       return 0;
     }
     if (op_code == WS_OP_CLOSE) {
       coap_log_debug("WS: Close received\n");
       session->ws->recv_close = 1;
-      coap_ws_close(session);
+      if (!session->ws->sent_close)
+        coap_ws_close(session);
       return 0;
     }
-
-    session->ws->all_hdr_in = 1;
 
     /* Get WebSockets frame size */
     if (bytes_size == 127) {
@@ -703,9 +704,12 @@ coap_ws_read(coap_session_t *session, uint8_t *data, size_t datalen) {
                    " (%zu > %zu)\n", bytes_size, datalen);
       coap_handle_event_lkd(session->context, COAP_EVENT_WS_PACKET_SIZE, session);
       session->ws->close_reason = 1009;
-      coap_ws_close(session);
+      if (!session->ws->sent_close)
+        coap_ws_close(session);
       return 0;
     }
+    /* Only now may the data part be read into the caller's buffer */
+    session->ws->all_hdr_in = 1;
     coap_log_debug("*  %s: Packet size %zu\n", coap_session_str(session),
                    bytes_size);
 
@@ -794,7 +798,8 @@ coap_ws_read(coap_session_t *session, uint8_t *data, size_t datalen) {
                                                    session->ws->data_size);
       if (!session->ws->partial_data) {
         session->ws->close_reason = 1011;
-        coap_ws_close(session);
+        if (!session->ws->sent_close)
+          coap_ws_close(session);
         return 0;
       }
     }
